@@ -478,3 +478,276 @@ def m_cchar(I, c, args, fr):
 @model('nom::character::complete::newline', 'complete::newline')
 def m_cnewline(I, c, args, fr):
     return m_cchar(I, c, [10], fr).f(I, args[0])
+
+
+# ---------------------------------------------------------------------------- further nom 7 surface (character classes, line endings, small combinators)
+def _cls(lo_hi_pairs, singles=()):
+    def pred(x):
+        cs = []
+        for lo, hi in lo_hi_pairs:
+            cs.append(z3.And(z3.UGE(x, lo), z3.ULE(x, hi)) if is_sym(x) else lo <= x <= hi)
+        for s in singles:
+            cs.append(x == s if is_sym(x) else x == s)
+        return b_or(*cs)
+    return pred
+CLASSES = {
+    'alpha': (_cls([(65, 90), (97, 122)]), 'Alpha'), 'alphanumeric': (_cls([(48, 57), (65, 90), (97, 122)]), 'AlphaNumeric'),
+    'digit': (_cls([(48, 57)]), 'Digit'), 'hex_digit': (_cls([(48, 57), (65, 70), (97, 102)]), 'HexDigit'), 'oct_digit': (_cls([(48, 55)]), 'OctDigit'),
+    'space': (_cls([], (32, 9)), 'Space'), 'multispace': (_cls([], (32, 9, 13, 10)), 'MultiSpace'),
+}
+def _register_class(name, pred, kind):
+    for one in (False, True):
+        nm = name + ('1' if one else '0')
+        def ms(I, c, args, fr, pred=pred, one=one, kind=kind):
+            return split_at_position(I, args[0], lambda I, x: b_not(pred(x)), one, kind)
+        def mc(I, c, args, fr, pred=pred, one=one, kind=kind):
+            return complete_split(I, args[0], lambda I, x: b_not(pred(x)), one, kind)
+        if 'nom::character::streaming::' + nm not in MODELS:
+            model('nom::character::streaming::' + nm, 'streaming::' + nm)(ms)
+        if 'nom::character::complete::' + nm not in MODELS:
+            model('nom::character::complete::' + nm, 'complete::' + nm)(mc)
+for _n, (_p, _k) in CLASSES.items():
+    _register_class(_n, _p, _k)
+
+def _compare(I, items, t):
+    """nom Compare for &[u8] against a byte string: 'Ok' | 'Incomplete' | 'Error'"""
+    n = min(len(items), len(t))
+    if not I.ctx.decide(seq_eq(items[:n], list(t[:n]))):
+        return 'Error'
+    return 'Ok' if len(items) >= len(t) else 'Incomplete'
+
+def _is_eol(x):
+    return b_or(x == 13, x == 10) if is_sym(x) else x in (13, 10)
+
+def _not_line_ending(I, inp, streaming):
+    inp = as_slice(inp)
+    items = inp.items()
+    for i, x in enumerate(items):
+        if I.ctx.decide(_is_eol(x)):
+            if I.ctx.decide(int_eq(x, 13)):
+                r = _compare(I, items[i:], b'\r\n')
+                if r == 'Ok':
+                    return done(inp.sub(i, len(items)), inp.sub(0, i))
+                if r == 'Incomplete' and streaming:
+                    return incomplete(None)
+                return nerror(inp, 'Tag')
+            return done(inp.sub(i, len(items)), inp.sub(0, i))
+    if streaming:
+        return incomplete(None)
+    return done(inp.sub(len(items), len(items)), inp)
+
+@model('nom::character::streaming::not_line_ending', 'streaming::not_line_ending')
+def m_not_line_ending(I, c, args, fr):
+    return _not_line_ending(I, args[0], True)
+
+@model('nom::character::complete::not_line_ending', 'complete::not_line_ending')
+def m_cnot_line_ending(I, c, args, fr):
+    return _not_line_ending(I, args[0], False)
+
+def _line_ending(I, inp, streaming):
+    inp = as_slice(inp)
+    items = inp.items()
+    r = _compare(I, items, b'\n')
+    if r == 'Ok':
+        return done(inp.sub(1, len(items)), inp.sub(0, 1))
+    if r == 'Incomplete':
+        return incomplete(1) if streaming else nerror(inp, 'CrLf')
+    r = _compare(I, items, b'\r\n')
+    if r == 'Ok':
+        return done(inp.sub(2, len(items)), inp.sub(0, 2))
+    if r == 'Incomplete' and streaming:
+        return incomplete(2)
+    return nerror(inp, 'CrLf')
+
+@model('nom::character::streaming::line_ending', 'streaming::line_ending')
+def m_line_ending(I, c, args, fr):
+    return _line_ending(I, args[0], True)
+
+@model('nom::character::complete::line_ending', 'complete::line_ending')
+def m_cline_ending(I, c, args, fr):
+    return _line_ending(I, args[0], False)
+
+def _crlf(I, inp, streaming):
+    inp = as_slice(inp)
+    items = inp.items()
+    r = _compare(I, items, b'\r\n')
+    if r == 'Ok':
+        return done(inp.sub(2, len(items)), inp.sub(0, 2))
+    if r == 'Incomplete' and streaming:
+        return incomplete(2)
+    return nerror(inp, 'CrLf')
+
+@model('nom::character::streaming::crlf', 'streaming::crlf')
+def m_crlf(I, c, args, fr):
+    return _crlf(I, args[0], True)
+
+@model('nom::character::complete::crlf', 'complete::crlf')
+def m_ccrlf(I, c, args, fr):
+    return _crlf(I, args[0], False)
+
+def _one_char(I, inp, streaming, pred, kind):
+    inp = as_slice(inp)
+    if len(inp) == 0:
+        return incomplete(1) if streaming else nerror(inp, 'Eof' if kind is None else kind)
+    x = inp.at(0)
+    if pred is not None and not I.ctx.decide(pred(x)):
+        return nerror(inp, kind)
+    return done(inp.sub(1, len(inp)), z3.ZeroExt(24, x) if is_sym(x) else x)
+
+@model('nom::character::streaming::anychar', 'streaming::anychar')
+def m_anychar(I, c, args, fr):
+    return _one_char(I, args[0], True, None, None)
+
+@model('nom::character::complete::anychar', 'complete::anychar')
+def m_canychar(I, c, args, fr):
+    return _one_char(I, args[0], False, None, None)
+
+@model('nom::character::streaming::tab', 'streaming::tab')
+def m_tab(I, c, args, fr):
+    return _one_char(I, args[0], True, lambda x: int_eq(x, 9), 'Char')
+
+def _token_pred(lst):
+    t = as_items(lst)
+    return lambda x: b_or(*[int_eq(x, y) for y in t])
+
+def _set_parser(name, streaming, positive, one_char):
+    kind = {'one_of': 'OneOf', 'none_of': 'NoneOf', 'is_a': 'IsA', 'is_not': 'IsNot'}[name]
+    def m(I, c, args, fr):
+        inset = _token_pred(args[0])
+        def parse(I, inp):
+            if one_char:
+                return _one_char(I, inp, streaming, (inset if positive else (lambda x: b_not(inset(x)))), kind)
+            stop = (lambda I, x: b_not(inset(x))) if positive else (lambda I, x: inset(x))
+            return (split_at_position if streaming else complete_split)(I, inp, stop, True, kind)
+        return PyFn(parse, name)
+    return m
+for _nm, _pos, _one, _mod in (('one_of', True, True, 'character'), ('none_of', False, True, 'character'), ('is_a', True, False, 'bytes'), ('is_not', False, False, 'bytes')):
+    model('nom::%s::streaming::%s' % (_mod, _nm), 'streaming::' + _nm)(_set_parser(_nm, True, _pos, _one))
+    model('nom::%s::complete::%s' % (_mod, _nm), 'complete::' + _nm)(_set_parser(_nm, False, _pos, _one))
+
+def p_take_till(pred, at_least_one, streaming=True):
+    def parse(I, inp):
+        return (split_at_position if streaming else complete_split)(I, inp, lambda I, x: I.call_value(pred, [x]), at_least_one, 'TakeTill1')
+    return PyFn(parse, 'take_till')
+
+@model('nom::bytes::streaming::take_till', 'streaming::take_till')
+def m_take_till(I, c, args, fr):
+    return p_take_till(args[0], False)
+@model('nom::bytes::streaming::take_till1', 'streaming::take_till1')
+def m_take_till1(I, c, args, fr):
+    return p_take_till(args[0], True)
+@model('nom::bytes::complete::take_till', 'complete::take_till')
+def m_ctake_till(I, c, args, fr):
+    return p_take_till(args[0], False, False)
+@model('nom::bytes::complete::take_till1', 'complete::take_till1')
+def m_ctake_till1(I, c, args, fr):
+    return p_take_till(args[0], True, False)
+
+def p_verify(p, f):
+    def parse(I, inp):
+        r = apply(I, p, inp)
+        if r.variant == 'Err':
+            return r
+        rest, o = r.fields[0].items
+        if I.ctx.decide(I.call_value(f, [ref_to(o)])):
+            return r
+        return nerror(inp, 'Verify')
+    return PyFn(parse, 'verify')
+
+def p_peek(p):
+    def parse(I, inp):
+        r = apply(I, p, inp)
+        if r.variant == 'Err':
+            return r
+        return done(inp, r.fields[0].items[1])
+    return PyFn(parse, 'peek')
+
+def p_not(p):
+    def parse(I, inp):
+        r = apply(I, p, inp)
+        if r.variant == 'Ok':
+            return nerror(inp, 'Not')
+        if is_err_kind(r, 'Error'):
+            return done(inp, UNIT)
+        return r
+    return PyFn(parse, 'not')
+
+def p_map_opt(p, f):
+    def parse(I, inp):
+        r = apply(I, p, inp)
+        if r.variant == 'Err':
+            return r
+        rest, o = r.fields[0].items
+        o2 = I.call_value(f, [o])
+        if o2.variant == 'Some':
+            return done(rest, o2.fields[0])
+        return nerror(inp, 'MapOpt')
+    return PyFn(parse, 'map_opt')
+
+def p_all_consuming(p):
+    def parse(I, inp):
+        r = apply(I, p, inp)
+        if r.variant == 'Err':
+            return r
+        rest = as_slice(r.fields[0].items[0])
+        if len(rest) == 0:
+            return r
+        return nerror(rest, 'Eof')
+    return PyFn(parse, 'all_consuming')
+
+def p_complete(p):
+    def parse(I, inp):
+        r = apply(I, p, inp)
+        if is_err_kind(r, 'Incomplete'):
+            return nerror(inp, 'Complete')
+        return r
+    return PyFn(parse, 'complete')
+
+@model('nom::combinator::verify', 'combinator::verify')
+def m_verify(I, c, args, fr):
+    return p_verify(args[0], args[1])
+@model('nom::combinator::peek', 'combinator::peek')
+def m_peek(I, c, args, fr):
+    return p_peek(args[0])
+@model('nom::combinator::not', 'combinator::not')
+def m_not(I, c, args, fr):
+    return p_not(args[0])
+@model('nom::combinator::map_opt', 'combinator::map_opt')
+def m_map_opt(I, c, args, fr):
+    return p_map_opt(args[0], args[1])
+@model('nom::combinator::all_consuming', 'combinator::all_consuming')
+def m_all_consuming(I, c, args, fr):
+    return p_all_consuming(args[0])
+@model('nom::combinator::complete', 'combinator::complete')
+def m_complete(I, c, args, fr):
+    return p_complete(args[0])
+
+@model('nom::combinator::eof', 'combinator::eof')
+def m_eof(I, c, args, fr):
+    inp = as_slice(args[0])
+    return done(inp, inp) if len(inp) == 0 else nerror(inp, 'Eof')
+
+@model('nom::combinator::rest', 'combinator::rest')
+def m_rest(I, c, args, fr):
+    inp = as_slice(args[0])
+    return done(inp.sub(len(inp), len(inp)), inp)
+
+GENERIC_PARSER_POS.update({'verify': 2, 'peek': 1, 'not': 1, 'map_opt': 2, 'all_consuming': 1, 'complete': 1, 'take_till': -1, 'take_till1': -1})
+_old_value_of_type = value_of_type
+def value_of_type(I, ty, env):
+    t = strip_lifetimes(ty.strip())
+    if t.startswith('{closure@'):
+        inner = t[9:-1]
+        m = re.match(r'^((?:nom::)?[\w:]*?)(\w+)<', inner)
+        if m and (inner.startswith('nom::') or '<' in inner.split('::{closure')[0]):
+            comb = m.group(2)
+            if comb in ('verify', 'peek', 'not', 'map_opt', 'all_consuming', 'complete', 'take_till', 'take_till1'):
+                name, gens = top_generics(inner)
+                gens = [g for g in gens if not g.startswith("'")]
+                if comb in ('take_till', 'take_till1'):
+                    streaming = 'complete' not in inner.split('<')[0]
+                    return p_take_till(value_of_type(I, gens[0], env), comb == 'take_till1', streaming)
+                n = GENERIC_PARSER_POS[comb]
+                parts = [value_of_type(I, g, env) for g in gens[-n:]]
+                return {'verify': p_verify, 'peek': p_peek, 'not': p_not, 'map_opt': p_map_opt, 'all_consuming': p_all_consuming, 'complete': p_complete}[comb](*parts)
+    return _old_value_of_type(I, ty, env)
